@@ -1,0 +1,47 @@
+package obykeyset
+
+import "strings"
+
+// makePipelineID joins key values by ',' into the ID of a pipeline, which is also the ID of its buffer / queue dir.
+//
+// ',' and '\' inside values are escaped by '\', so different key sets never get the same ID and splitPipelineID can
+// restore the values. A single empty value gives "\0", because an empty ID means "no sub-directory" to bufferers.
+//
+// IDs of key sets without ',' and '\' are the plain joined values as before.
+func makePipelineID(keys []string) string {
+	escaped := make([]string, len(keys))
+	for i, key := range keys {
+		if strings.ContainsAny(key, `,\`) {
+			key = strings.ReplaceAll(key, `\`, `\\`)
+			key = strings.ReplaceAll(key, `,`, `\,`)
+		}
+		escaped[i] = key
+	}
+	id := strings.Join(escaped, ",")
+	if len(id) == 0 {
+		return `\0`
+	}
+	return id
+}
+
+// splitPipelineID splits an ID made by makePipelineID back into key values
+func splitPipelineID(id string) []string {
+	if id == `\0` {
+		return []string{""}
+	}
+	keys := make([]string, 0, 4)
+	current := make([]byte, 0, len(id))
+	for i := 0; i < len(id); i++ {
+		switch c := id[i]; {
+		case c == '\\' && i+1 < len(id) && (id[i+1] == '\\' || id[i+1] == ','):
+			i++
+			current = append(current, id[i])
+		case c == ',':
+			keys = append(keys, string(current))
+			current = current[:0]
+		default:
+			current = append(current, c)
+		}
+	}
+	return append(keys, string(current))
+}
